@@ -19,6 +19,13 @@
 #include <vector>
 #include <string>
 
+// second access shim of this translation unit (Phreeqc.h and IPhreeqc.hpp also befriend `TestSelectedOutput`)
+class TestSelectedOutput {
+public:
+  static int reaction_step(IPhreeqc* p) { return p->PhreeqcPtr->reaction_step; }
+  static double last_good_time(IPhreeqc* p) { return p->PhreeqcPtr->cvode_last_good_time; }
+};
+
 struct Ev { double x1, x2; std::string tag; double aux; int rstep; };
 static std::vector<Ev> g_trace;
 static bool g_trace_on = false;
@@ -26,8 +33,8 @@ static const size_t TRACE_MAX = 200000;
 
 static double cb(double x1, double x2, const char* str, void* cookie) {
   // aux = engine's cvode_last_good_time at the moment of the rate evaluation (0 outside CVODE)
-  double aux = cookie ? TestIPhreeqc::engine((IPhreeqc*)cookie)->cvode_last_good_time : 0.0;
-  int rstep = cookie ? TestIPhreeqc::engine((IPhreeqc*)cookie)->reaction_step : 0;
+  double aux = cookie ? TestSelectedOutput::last_good_time((IPhreeqc*)cookie) : 0.0;
+  int rstep = cookie ? TestSelectedOutput::reaction_step((IPhreeqc*)cookie) : 0;
   if (g_trace.size() < TRACE_MAX) g_trace.push_back(Ev{x1, x2, str ? str : "", aux, rstep});
   return 0.0;
 }
